@@ -785,6 +785,19 @@ def run(chk):
       chk.ob('C06-R7', True, None, '%s %s' % (st.kind, st.source), st.reason, fi=st.fi,
              node=st.node, nontrivial=st.kind in ('for', 'comprehension'))
 
+  # the C++ parser builds its tables per call; the Python parser gives the
+  # same tree for the same text only if it keeps no table that a previous
+  # parse could have changed in place
+  from rules.c13 import global_writes
+  shared = [(fi_, node_, name_) for fi_, node_, kind_, name_ in
+            global_writes(repo, [repo.mod('parser_py/parse.py')]) if kind_ in ('mutate', 'default')]
+  chk.ob('C06-R7', not shared, None,
+         'no module-level table of parse.py is changed in place while parsing',
+         '%s is changed in place in %s: what the Python parser accepts afterwards depends '
+         'on the programs parsed before, the C++ parser starts from its constants every '
+         'time' % (shared[0][2] if shared else '', shared[0][0].qualname if shared else ''),
+         fi=shared[0][0] if shared else repo.func('parse.ParseFile'),
+         node=shared[0][1] if shared else None)
   json_bridge(chk, cpp)
 
 
